@@ -3915,6 +3915,10 @@ Octagonal_Shape<T>
                                      coeff, term)) {
       continue;
     }
+    // Trivial constraints are ignored too.
+    if (num_vars == 0) {
+      continue;
+    }
 
     typedef typename OR_Matrix<N>::const_row_iterator Row_iterator;
     typedef typename OR_Matrix<N>::const_row_reference_type Row_reference;
